@@ -9,6 +9,7 @@
 -/
 import Lattigo.Proofs.RGSW
 import Lattigo.Proofs.RGSW32
+import Lattigo.Proofs.BlindRotPhase
 
 namespace Lattigo.Props.C20
 open Lattigo Lattigo.RGSW
@@ -217,4 +218,150 @@ theorem path_eq_counterexample :
       slot32 q mrc rs cs ≠ 413437106 := by
   decide +kernel
 
+/-- the 32-bit path with `BaseTwoDecomposition = 0`: `mask = (1 << 0) − 1 = 0`, every digit vanishes and the
+    product is `(0, 0)` whatever the inputs (here `q = 97`, the trivial encryption `(5 + 3X, 0)` and a
+    noise-free RGSW encryption of `1`); the general path would return the ciphertext itself. -/
+theorem extprod32_zero_mask_counterexample :
+    let p : Par := { qsQ := [97], qsP := [], n := 2, w := 0 }
+    let one : RPoly := { qs := [97], c := [[1, 0]] }
+    let zero : RPoly := RPoly.zero [97] 2
+    let rg : Ct RPoly := encryptR p true zero one [(zero, zero)] [(zero, zero)]
+    let ct : RPoly × RPoly := ({ qs := [97], c := [[5, 3]] }, zero)
+    fast32 p = true ∧ extProdR p ct rg = (zero, zero) ∧ ct ≠ (zero, zero) := by
+  decide +kernel
+
+/-- out-of-place external product with two auxiliary primes, AS CODED: the result depends on the previous
+    content of the output (`c0QP.Q = opOut.Value[0]` is what `ModDownQPtoQNTT` divides, the inner product
+    sits in `BuffQP[1].Q`).  `Q = 97`, `P = 101·103`, same inputs, two different `old` contents. -/
+theorem extprod_oop_counterexample :
+    let p : Par := { qsQ := [97], qsP := [101, 103], n := 2, w := 0 }
+    let qs := [97, 101, 103]
+    let zero : RPoly := RPoly.zero qs 2
+    let one : RPoly := { qs := qs, c := [[1, 0], [1, 0], [1, 0]] }
+    let rg : Ct RPoly := encryptR p false zero one [(zero, zero)] [(zero, zero)]
+    let ct : RPoly × RPoly := ({ qs := [97], c := [[5, 3]] }, RPoly.zero [97] 2)
+    let oldA : RPoly × RPoly := (RPoly.zero [97] 2, RPoly.zero [97] 2)
+    let oldB : RPoly × RPoly := ({ qs := [97], c := [[1, 0]] }, RPoly.zero [97] 2)
+    extProdR p ct rg = ct ∧
+    extProdOutOfPlaceR p ct rg oldA ≠ extProdOutOfPlaceR p ct rg oldB := by
+  decide +kernel
+
+/-! ## Blind rotation -/
+
+open Lattigo.RGSW.BlindRot
+
+/-- `blindrot_invariant` (exponents, the algorithm AS CODED).  For `N = 2^(k+1) ≥ 4`, every mask `a` (any
+    naturals), every secret `s` and every `b`: the operations `BlindRotateCore` performs (`coreSchedule`:
+    classes by discrete log of 5 and sign, window 10, the `v` of the negative loop carried into the
+    positive one) map the exponents `(t, u) = (2N−5, (2N−5)·b)` of the initial accumulator `φ_{−5}(F·X^b)`
+    to `t ≡ 1`, `u ≡ b + Σ_j eff(a_j)·s_j (mod 2N)`, where `eff(a_j) = ±5^{dlog a_j}` is the value the table
+    of `getGaloisElementInverseMap` assigns to the coefficient. -/
+theorem blindrot_exponent (k : Nat) (hk : 1 ≤ k) (a : List Nat) (sI : Nat → Int) (b : Nat) :
+    let N := 2 ^ (k + 1)
+    let r := runExp sI (coreSchedule N a) (initExp N b)
+    ((r.1 : Int) : ZMod (2 * N)) = 1 ∧
+    ((r.2 : Int) : ZMod (2 * N)) =
+      (b : ZMod (2 * N)) +
+        ((List.range a.length).map fun j => effZ N (a.getD j 0) * ((sI j : Int) : ZMod (2 * N))).sum :=
+  runExp_coreSchedule k hk a sI b
+
+/-- non-vacuity / test: `N = 16`, the schedule on a concrete mask (`decide`, a test) -/
+example : slotExp 16 [5, 27, 1, 13] 3 [1, -1, 0, 1] = (1, 26) ∧ ((3 + 5 * 1 + 27 * (-1) + 1 * 0 + 13 * 1 : Int) % 32 = 26) := by
+  decide +kernel
+
+/-- a coefficient the table holds as `+5^i`, or as `−5^i` with `i > 0`, is treated as itself … -/
+theorem eff_of_table (N x : Nat) (kv : Nat × Int) (hmem : kv ∈ dlogTable N) (hx : kv.1 = x)
+    (hd : dlog N x = kv.2) (hne : x ≠ 2 * N - 1) (hN : 0 < N) : effZ N x = (x : ZMod (2 * N)) :=
+  effZ_of_table N x kv hmem hx hd (Or.inl hne) hN
+
+/-- … and for `N = 16, 32, 64` (the ring degrees of the correspondence runs; a `decide`, i.e. a test of the
+    table, not a proof for all `N`) every odd residue except `2N − 1` is treated as itself. -/
+theorem eff_table_16_32_64 : ∀ N ∈ [16, 32, 64], ∀ x ∈ List.range (2 * N),
+    x % 2 = 1 → x ≠ 2 * N - 1 → (eff N x % (2 * N : Nat)).toNat = x := by
+  decide +kernel
+
+/-- `blindrot_exponent_counterexample`: the coefficient `2N − 1 = −5^0` is in the class of `+1`
+    (`GaloisGenDiscreteLog[2N − pow] = −i` with `i = 0`; `BlindRotateCore` looks the class up under the key
+    `2N`, which the table never produces), and a zero coefficient (absent from the table, Go returns `0`)
+    as well.  `N = 16`: the one-coefficient mask `[31]` with `s_0 = 1`, `b = 3` ends at exponent `4`, not
+    `3 + 31·1 ≡ 2`; the mask `[0]` ends at `4`, not `3`.  (Probe `blindrot_exponent`, keys
+    `blindrot-dlog-minus-one`, `blindrot-dlog-zero`.) -/
+theorem blindrot_exponent_counterexample :
+    dlog 16 31 = 0 ∧ eff 16 31 = 1 ∧ dlog 1024 2047 = 0 ∧ eff 1024 2047 = 1 ∧ eff 16 0 = 1 ∧
+    slotExp 16 [31] 3 [1] = (1, 4) ∧ (3 + 31 * 1) % 32 = 2 ∧
+    slotExp 16 [0] 3 [1] = (1, 4) := by
+  decide +kernel
+
+/-- `blindrot_invariant` (phases).  In any commutative ring with monomials `X^u` (`u ∈ ZMod (2N)`) and
+    automorphisms `φ_g`: if the accumulator decrypts to `φ_t(F)·X^u + n`, then after `BlindRotateCore` it decrypts to
+    `φ_{t'}(F)·X^{u'} + n'`, `(t', u')` as in `blindrot_exponent` and `n'` the accumulated noise
+    (`noiseRun`: every automorphism permutes the noise and adds its key-switching error, every external
+    product rotates it and adds the term of `extprod_phase_div`). -/
+theorem blindrot_invariant {m : Nat} {R γ : Type} [CommRing R]
+    (mono : ZMod m → R) (φ : ZMod m → R → R) (ph : γ → R)
+    (autOp : Nat → γ → γ) (mulOp : Nat → γ → γ) (s : Nat → ZMod m)
+    (hmono : ∀ u v, mono (u + v) = mono u * mono v)
+    (hφadd : ∀ g x y, φ g (x + y) = φ g x + φ g y) (hφmul : ∀ g x y, φ g (x * y) = φ g x * φ g y)
+    (hφφ : ∀ g t x, φ g (φ t x) = φ (g * t) x) (hφmono : ∀ g u, φ g (mono u) = mono (g * u))
+    (F : R) (st : List Step) (x : γ) (t u : ZMod m) (n : R) (h : ph x = φ t F * mono u + n) :
+    ph (runSteps autOp mulOp st x) =
+      φ (runZ s st (t, u)).1 F * mono (runZ s st (t, u)).2 + noiseRun mono φ ph autOp mulOp s st x n :=
+  blindrot_phase mono φ ph autOp mulOp s hmono hφadd hφmul hφφ hφmono F st x t u n h
+
+/-- non-vacuity: `R = γ = ZMod 32`-free toy: `R = γ = ℤ`, trivial monomials and automorphisms -/
+example : (fun x : ℤ => x) (runSteps (fun _ x => x) (fun _ x => x) [Step.aut 5, Step.mul 0] (7 : ℤ)) =
+    (fun (_ : ZMod 32) (x : ℤ) => x) (runZ (fun _ => (0 : ZMod 32)) [Step.aut 5, Step.mul 0] (1, 0)).1 7 *
+      (fun _ : ZMod 32 => (1 : ℤ)) (runZ (fun _ => (0 : ZMod 32)) [Step.aut 5, Step.mul 0] (1, 0)).2 +
+      noiseRun (fun _ : ZMod 32 => (1 : ℤ)) (fun _ x => x) (fun x : ℤ => x) (fun _ x => x) (fun _ x => x)
+        (fun _ => (0 : ZMod 32)) [Step.aut 5, Step.mul 0] 7 0 :=
+  blindrot_invariant (fun _ => 1) (fun _ x => x) (fun x => x) (fun _ x => x) (fun _ x => x) (fun _ => 0)
+    (by intros; ring) (by intros; rfl) (by intros; rfl) (by intros; rfl) (by intros; rfl)
+    7 _ 7 1 0 0 (by ring)
+
+/-- `blindrot_lookup`: the constant coefficient of `F·X^e`, `F` the test polynomial of the table `y`, is `y e`
+    for every exponent `e ∈ [−N/2, N/2)` (`N = 2h`). -/
+theorem blindrot_lookup (h : Nat) (hh : 0 < h) (y : Int → Int) (e : Int)
+    (h1 : -(h : Int) ≤ e) (h2 : e < h) :
+    lookup (2 * h) (testPolyInts (2 * h) y) e = y e :=
+  lookup_testPoly h hh y e h1 h2
+
+example : lookup 8 (testPolyInts 8 fun k => 10 * k) (-3) = -30 := by decide
+
+/-- the right end point of the documented closed interval `[a, b]` is NOT served: the exponent `N/2` returns
+    `−y(−N/2)` (the negated value at the left end point); only odd tables get `y(N/2)` there. -/
+theorem blindrot_lookup_endpoint (h : Nat) (hh : 0 < h) (y : Int → Int) :
+    lookup (2 * h) (testPolyInts (2 * h) y) (h : Int) = -(y (-(h : Int))) :=
+  lookup_endpoint h hh y
+
+/-- `keys_exact` (inclusion): every operation of the schedule is served by the generated key set
+    (`5^1 … 5^10`, `2N − 5`, one RGSW key per LWE secret coefficient), for every `N` and every mask. -/
+theorem brk_keys_requested_subset (N : Nat) (a : List Nat) :
+    ∀ st ∈ coreSchedule N a, stepOk N a.length st :=
+  coreSchedule_ok N a
+
+example : stepOk 16 4 (Step.aut (galEl 16 3)) := Or.inl ⟨3, by decide, by decide, rfl⟩
+
 end Lattigo.Props.C20
+
+#print axioms Lattigo.Props.C20.rgsw_rows_phase
+#print axioms Lattigo.Props.C20.rgsw_rows_phase_noP
+#print axioms Lattigo.Props.C20.rgsw_enc_noP_counterexample
+#print axioms Lattigo.Props.C20.extprod_phase
+#print axioms Lattigo.Props.C20.extprod_phase_div
+#print axioms Lattigo.Props.C20.extprod_phase_noP
+#print axioms Lattigo.Props.C20.rgsw_add
+#print axioms Lattigo.Props.C20.rgsw_mulXminus1
+#print axioms Lattigo.Props.C20.rgsw_mulXminus1_add
+#print axioms Lattigo.Props.C20.rgsw_addPlain
+#print axioms Lattigo.Props.C20.path_eq
+#print axioms Lattigo.Props.C20.path_eq_counterexample
+#print axioms Lattigo.Props.C20.extprod32_zero_mask_counterexample
+#print axioms Lattigo.Props.C20.extprod_oop_counterexample
+#print axioms Lattigo.Props.C20.blindrot_exponent
+#print axioms Lattigo.Props.C20.eff_of_table
+#print axioms Lattigo.Props.C20.eff_table_16_32_64
+#print axioms Lattigo.Props.C20.blindrot_exponent_counterexample
+#print axioms Lattigo.Props.C20.blindrot_invariant
+#print axioms Lattigo.Props.C20.blindrot_lookup
+#print axioms Lattigo.Props.C20.blindrot_lookup_endpoint
+#print axioms Lattigo.Props.C20.brk_keys_requested_subset
